@@ -184,7 +184,9 @@ func (dec *Decoder) decodeBigRat(t reflect.Type, tag byte, p **big.Rat) {
 	case TagInteger:
 		*p = big.NewRat(dec.ReadInt64(), 1)
 	case TagLong:
-		*p = new(big.Rat).SetInt(dec.readBigInt(t))
+		if i := dec.readBigInt(t); i != nil {
+			*p = new(big.Rat).SetInt(i)
+		}
 	case TagDouble:
 		*p = new(big.Rat).SetFloat64(dec.ReadFloat64())
 	case TagUTF8Char:
